@@ -74,7 +74,10 @@ def scripts(tier):
             # removes it is triggered by whichever request comes next - its own or the other instance's
             ["begin", "step_set", "expire", "step"], ["begin_set", "expire", "keepalive"], ["begin", "expire"]]
     # starting the instance is a request of the script: an instance may be started after another one was used and stopped
-    return [["start"] + x for x in out]
+    out = [["start"] + x for x in out]
+    # an instance with a LONGER timeout (5 hours) that stays idle for 3 hours: it must survive whatever the others do
+    out += [["start_long", "begin", "step_set", "idle3h", "step", "results"], ["start_long", "begin_set", "idle3h", "keepalive", "step"]]
+    return out
 
 
 def interleavings(a, b, limit):
@@ -112,8 +115,8 @@ class Server(object):
         self.mode, self.env = mode, env or {}
         self.ids = {}
 
-    def start(self, inst):
-        r = self.c.post("/start-instance", data=json.dumps({"timeout": {"hours": 1}}), content_type="application/json")
+    def start(self, inst, hours=1):
+        r = self.c.post("/start-instance", data=json.dumps({"timeout": {"hours": hours}}), content_type="application/json")
         self.ids[inst] = json.loads(r.data)["instance_uuid"]
 
     def value(self, name):
@@ -122,9 +125,15 @@ class Server(object):
         return float(self.env.get(name, 2.0 + (sum(map(ord, name)) % 7)))
 
     def do(self, inst, pos, req):
-        if req == "start":
-            self.start(inst)
+        if req in ("start", "start_long"):
+            self.start(inst, 1 if req == "start" else 5)
             return (200, "started")
+        if req == "idle3h":
+            import datetime
+            d = self.app._instance_manager._instances.get(self.ids[inst])
+            if d is not None and d.get("time") is not None:
+                d["time"] = d["time"] - datetime.timedelta(hours=3)          # less than this instance's own timeout of 5 hours
+            return (200, "idle for three hours")
         uid = self.ids[inst]
         post = lambda url, body=None: self.c.post(url, data=json.dumps(body), content_type="application/json") if body is not None else self.c.post(url)
         if req == "begin":
